@@ -98,6 +98,7 @@ type frame struct {
 	thr              *thread
 	callpos          token.Pos
 	depth            int
+	nsteps           int64
 }
 
 func (fr *frame) get(key ssa.Value) value {
@@ -184,6 +185,7 @@ func (i *Interp) rtPanic(msg string) {
 func visitInstr(fr *frame, instr ssa.Instruction) continuation {
 	i := fr.i
 	i.steps++
+	fr.nsteps++
 	if i.steps > i.cfg.MaxSteps {
 		i.abort("step-limit")
 	}
@@ -452,7 +454,9 @@ func callSSA(i *Interp, caller *frame, callpos token.Pos, fn *ssa.Function, args
 		fmt.Fprintf(os.Stderr, "%*scall %s\n", fr.depth, "", info.name)
 	}
 	if info.ext != nil {
-		return info.ext(fr, args)
+		if r := info.ext(fr, args); r != (notHandled{}) {
+			return r
+		}
 	}
 	if fn.Synthetic == "package initializer" && fn.Pkg != nil && !i.cfg.InitPkgs[fn.Pkg.Pkg.Path()] {
 		return nil
@@ -469,7 +473,7 @@ func callSSA(i *Interp, caller *frame, callpos token.Pos, fn *ssa.Function, args
 	if fr.depth > 400 {
 		i.abort("recursion-limit")
 	}
-	i.noteFunc(fn)
+	defer func() { i.funcs[fn] += fr.nsteps }()
 
 	fr.env = make([]value, info.nregs)
 	fr.block = fn.Blocks[0]
